@@ -113,3 +113,67 @@ CHECKS.update({
         "technique": "TLC invariant on the buffer model + measured memory samples judged by TLC",
     },
 })
+
+_GEN = ("This is the weakest fit for the family (a pure decode function): the specification contributes the case analysis, a reference encoder "
+        "and the expected values; TLC enumerates abstract messages (spec->code) and judges every decoded dictionary, re-encoding each abstract "
+        "message itself so that the Python-side encoder is not trusted (code->spec).")
+
+CHECKS.update({
+    "C07": {"text": "Aidon push lists: TLC enumerates the documented list layouts x register value classes (0, 1, sign boundaries, max) x scaler -3..3 in "
+                    "frame and body form, encodes them with the specification's A-XDR encoder and states Meaning; every captured message is re-encoded "
+                    "byte for byte by TLC; random full-range registers, strings, clocks, subsets and orders are judged by TLC against Meaning, in both "
+                    "forms. MC_Cosem checks the specification itself (forms agree, keys distinct, announced lengths). " + _GEN,
+            "design_ref": "§6-C07..C09", "note": "register space sampled beyond the boundary classes; floats compared through repr() (exact for <=15 digits)",
+            "technique": "TLA+ reference encoder + Meaning, TLC enumeration of abstract messages, TLC judging of decoded dictionaries"},
+    "C08": {"text": "Kaifa lists: five positional layouts (1/9/13/14/18) and the OBIS-tagged list x register value classes x APDU clock forms, enumerated "
+                    "and encoded by TLC; Meaning states position->field, currents /1000, voltages /10, list clock over APDU clock, manufacturer; captured "
+                    "messages re-encoded by TLC; random full-range registers/strings/clocks judged by TLC in both forms. " + _GEN,
+            "design_ref": "§6-C07..C09", "note": "numeric equality after rounding to 15 significant digits (the statement does not ask for correct rounding)",
+            "technique": "TLA+ reference encoder + Meaning, TLC enumeration of abstract messages, TLC judging of decoded dictionaries"},
+    "C09": {"text": "Kamstrup lists: 10-second and hourly lists, one/three phase x register classes x meter types (incl. 685.. CT types and near misses) x "
+                    "null-padding patterns x tagged/untagged APDU clock; Meaning states currents /100 (/1000 for CT), energies x10, APDU clock for frames; "
+                    "captured messages re-encoded by TLC; random variants judged by TLC in both forms. " + _GEN,
+            "design_ref": "§6-C07..C09", "note": "numeric equality after rounding to 15 significant digits; only OBIS codes with a common name (the decoder's domain)",
+            "technique": "TLA+ reference encoder + Meaning, TLC enumeration of abstract messages, TLC judging of decoded dictionaries"},
+    "C10": {"text": "COSEM date-time in each of the six syntactic positions (APDU tagged/untagged, Aidon element, Kaifa positional and OBIS element, "
+                    "Kamstrup element): TLC enumerates boundary dates, times, hundredths {0,1,50,99,FF}, deviations {0,+-1,+-60,+-720,unspecified}, all "
+                    "256 status octets, day-of-week values, and states DtMeaning (civil fields, microseconds, UTC offset = -deviation); random valid "
+                    "date-times are judged by TLC. " + _GEN,
+            "design_ref": "§6-C10", "note": "calendar space sampled beyond the enumerated boundaries",
+            "technique": "TLA+ DtMeaning + reference encoder, TLC enumeration, TLC judging"},
+    "C11": {"text": "P1 data blocks: the specification renders abstract blocks (Render), states the parse relation (Parsed) and the unit-driven Meaning on "
+                    "exact decimal digit sequences (kilo units: within one below the exact product); TLC enumerates a truncation sweep over all 1000 "
+                    "three-digit fractions and block shapes, and judges parse result, decoded dictionary, identification fields and equality of the "
+                    "three decode paths for random blocks, re-rendering each block itself. The line parser's termination model is shared with C15. " + _GEN,
+            "design_ref": "§6-C11", "note": "domain: unsigned decimals with <=3 fractional digits, addresses with group E present, >=1 data set",
+            "technique": "TLA+ Render/Parsed/Meaning, TLC enumeration + TLC judging of recorded parse/decode results"},
+    "C12": {"text": "AutoDecoder: the cyclic-scan state machine is model-checked against the contract over all histories <=3 x all 2^7 acceptance vectors; "
+                    "every (remembered decoder x acceptance vector) transition is replayed into the real class with stub decoders; real decoders: all "
+                    "histories <=2 (<=3 thorough) over a pool of every captured message in both forms, P1 blocks and junk, random histories to 30, "
+                    "same-meter histories, decode_message vs decode_message_payload in lockstep; each call judged by TLC from the measured acceptance vector.",
+            "design_ref": "§6-C12", "note": "'accepts' = returns a dictionary when called alone; result identity = dictionary equality",
+            "technique": "TLC model check of the decoder-selection machine + full transition replay + TLC judging of recorded histories"},
+    "C13": {"text": "Protocols: implementation-shaped data_received is model-checked against the contract (2 readers x <=2 messages per call x 3 calls x "
+                    "both variants); every first call of that space (+ representative second calls) is replayed with scripted readers; real readers in 8 "
+                    "candidate lists on clean/corrupted/mixed streams are recorded through proxies and each call is judged by TLC (selection, exact queue "
+                    "delta, nothing before selection, end-to-end payloads on clean streams).",
+            "design_ref": "§6-C13", "note": "payload identity by content, message identity by object",
+            "technique": "TLC model check + generated-behaviour replay + TLC judging of recorded data_received histories"},
+    "C14": {"text": "Every exception out of read(), is_valid, payload, as_bytes, message_type or data_received() is recorded as an event the contract has no "
+                    "counterpart for and is rejected by TLC; noise of four structure-biased kinds x chunkings x both readers (4 HDLC configurations) x "
+                    "both protocol classes with [HDLC,P1]/[P1,HDLC]; each trace continues with a clean suffix judged per C16. The reader models are total "
+                    "(no deadlock/undefined step for any octet in any reachable state).",
+            "design_ref": "§6-C14", "note": "byte space sampled with bias to structural characters",
+            "technique": "TLC trace judging (no-raise + resync clauses) over structure-biased noise; totality of the reader specs"},
+    "C15": {"text": "Termination of the P1 line parser is an action property (scan position strictly advances) checked by TLC for ALL lines <=7/8 over "
+                    "{a,(,),*} (TLC finds the lasso of the pinned tree); the spec's parse result for every such line is replayed into parse_data_block; "
+                    "every truncation and 1..5-octet mutation class of every captured message, random bytes, ASCII fragments and crafted values are decoded "
+                    "from several remembered-decoder states under an alarm, an address-space limit and a profile-event counter; outcomes judged by TLC.",
+            "design_ref": "§6-C15", "note": "the polynomial cost clause is a measurement against a generous bound, not a proof",
+            "technique": "TLC action property for termination + exhaustive small-scope replay + sandboxed mutation runs judged by TLC"},
+    "C20": {"text": "OBIS: the specification renders value groups in both syntaxes; MC_Obis proves the renderings injective on the group space (design-level "
+                    "losslessness); TLC-rendered strings for all 16 presence patterns x boundary values are parsed by the code; random groups, round "
+                    "trips, ==/hash/==str/C.D.E over all pairs of a pool and malformed strings <=6 are judged by TLC.",
+            "design_ref": "§6-C20", "note": "group values sampled beyond boundaries; malformed strings containing digit.digit are not bound by the statement",
+            "technique": "TLA+ rendering spec, TLC injectivity model, TLC judging of recorded operations"},
+})
